@@ -3,6 +3,7 @@ import ChythonModel.Proofs.C09Closure
 import ChythonModel.Proofs.C09SearchP
 import ChythonModel.Proofs.C09SearchR
 import ChythonModel.Proofs.C09Layout
+import ChythonModel.Proofs.C09Faithful
 /-!
 # C09 — compiled (bit-mask) matcher ≡ reference matcher: property theorems
 
@@ -243,6 +244,21 @@ theorem query_buffer_layout (q : LQuery) (cl : Iso.Closures) (comp : List Iso.St
         (∀ ms, cl.lookup s.front = some ms → ms ≠ [] → closureBonds q (comp.map (·.front)) s.front ms = .ok qb) ∧
         ((cl.lookup s.front = none ∨ cl.lookup s.front = some []) → qb = []) :=
   encComponent_layout q cl comp cq h hF hcl
+
+/-- **the encoders produce faithful buffers**: for a molecule and a linearised query component in the shape the encoders expect
+    (`MolOK`: `_bonds` keyed like `_atoms`, distinct numbers, atoms in `ADom`, bond orders 1/2/3/4/8; `QueryOK`; an accepted linearisation
+    `CompOK` — C07 proves `compileQuery` produces one — with distinct fronts and closure keys) and pairs inside the documented domain,
+    whatever `_cython_compiled_structure` and `_cython_compiled_query` return encodes exactly `decodeOf q m lq`; hence
+    (`compiled_search_eq_reference_search`) the compiled matcher run on the encoders' outputs is the reference search on the decoded
+    objects — no hypothesis about the buffers is left -/
+theorem compiled_search_on_encoder_outputs (q : LQuery) (m : LMol) (cl : Iso.Closures) (lq : List Iso.Step) (cm : CMol) (cq : CQuery)
+    (hm : MolOK m) (hq : QueryOK q) (hme : encStructure m = .ok cm) (hqe : encComponent q cl lq = .ok cq)
+    (hF : (lq.map (·.front)).Nodup) (hcl : (cl.map (·.1)).Nodup)
+    (hcomp : ChythonModel.Proofs.C07.CompOK q.graph cl lq)
+    (hpairs : ∀ p ∈ q.atoms, ∀ r ∈ m.atoms, NoHeavyClash p.2 r.2 ∧ HKnown p.2 r.2) (scope : List Bool) :
+    Faithful (decodeOf q m lq) cm cq ∧ getMappingC cm cq scope = getMappingR (decodeOf q m lq) cm cq scope := by
+  have hF' := encoders_faithful q m cl lq cm cq hm hq hme hqe hF hcl hcomp hpairs
+  exact ⟨hF', getMappingC_eq_R _ cm cq hF' scope⟩
 
 /-- well-formed inputs inside the documented domain, for the end-to-end statement -/
 structure SearchDomain (q : LQuery) (m : LMol) : Prop where
